@@ -388,3 +388,102 @@ func vfH_C19_oob_foreign_conv() {
 	vfReach("post")
 	vfAssert("oob/foreign-conversation-never-reaches-this-session's-handler", calls == 0)
 }
+
+// ---------------- C09(a): header codec, both directions ----------------
+
+// segment.encode against the independent decoder for all field values, and the real Input on
+// what the independent encoder writes.
+func vfH_C09_header_codec() {
+	var seg segment
+	seg.conv, seg.cmd, seg.frg, seg.wnd = vfU32("conv"), vfU8("cmd"), vfU8("frg"), vfU16("wnd")
+	seg.ts, seg.sn, seg.una = vfU32("ts"), vfU32("sn"), vfU32("una")
+	n := vfPick("len", 0, 3)
+	seg.data = vfBytes("payload", n)
+	buf := make([]byte, IKCP_OVERHEAD+n)
+	rest := seg.encode(buf)
+	vfAssert("codec/encode-returns-the-payload-area", len(rest) == n)
+	copy(rest, seg.data)
+	hs, ok := vfSpecDecode(buf)
+	vfReach("encoded")
+	vfAssert("codec/one-well-formed-segment", ok && len(hs) == 1)
+	if len(hs) == 1 {
+		h := hs[0]
+		vfAssert("codec/fields-at-documented-offsets", vfAnd(vfAnd(vfAnd(h.conv == seg.conv, h.cmd == seg.cmd), vfAnd(h.frg == seg.frg, h.wnd == seg.wnd)), vfAnd(vfAnd(h.ts == seg.ts, h.sn == seg.sn), vfAnd(h.una == seg.una, int(h.ln) == n))))
+		vfAssert("codec/payload-follows-the-header", vfBytesEq(h.data, seg.data))
+	}
+	// reverse direction: a PUSH written by the independent encoder is understood by the real parser
+	k := NewKCP(seg.conv, func([]byte, int) {})
+	var f vfDatagramFields
+	f.conv, f.cmd, f.frg, f.wnd, f.ts, f.sn, f.una = seg.conv, IKCP_CMD_PUSH, seg.frg, seg.wnd, seg.ts, 0, seg.una
+	f.ln, f.payload = n, seg.data
+	vfSetClock(vfU32("now"))
+	ret := k.Input(vfEncodeDatagram(f), IKCP_PACKET_REGULAR, false)
+	vfReach("parsed")
+	vfAssert("codec/spec-encoded-push-accepted", ret == 0)
+	vfAssert("codec/window-field-read", k.rmt_wnd == uint32(seg.wnd))
+	vfAssert("codec/ack-owed-with-echoed-timestamp", len(k.acklist) == 1 && vfConcreteBool(vfAnd(k.acklist[0].sn == 0, k.acklist[0].ts == seg.ts)))
+	if k.rcv_queue.Len() == 1 {
+		s := vfRingAt(k.rcv_queue, 0)
+		vfAssert("codec/fragment-and-payload-delivered", vfAnd(s.frg == seg.frg, vfBytesEq(s.data, seg.data)))
+	} else {
+		vfAssert("codec/segment-delivered", false)
+	}
+}
+
+// ---------------- C01 L6: session Read / WriteBuffers (non-blocking paths) ----------------
+
+// Read returns the next min(len(b), available) owed bytes in order, for every split between the
+// pending remainder, the delivery queue and the caller's buffer size.
+func vfH_C01_session_read() {
+	conn := vfNewConn()
+	s := vfNewSession(vfU32("conv"), 0, 0, nil, conn, vfServerAddr, nil)
+	vfSetClock(vfU32("t0"))
+	var want []byte
+	nm := vfPick("messages", 1, 2)
+	for i := 0; i < nm; i++ {
+		l := []int{1, 5}[vfPick(vfName("mlen", i), 0, 1)]
+		dg := vfNextPush(s, vfName("m", i), l)
+		want = append(want, dg[IKCP_OVERHEAD:]...)
+		s.kcpInput(dg)
+	}
+	vfReach("delivered")
+	var got []byte
+	for r := 0; r < 5 && len(got) < len(want); r++ {
+		b := make([]byte, []int{1, 3, 16}[vfPick(vfName("rlen", r), 0, 2)])
+		n, err := s.Read(b)
+		vfAssert("read/no-error-while-data-is-owed", err == nil)
+		vfAssert("read/returns-at-least-one-byte", n >= 1 && n <= len(b))
+		got = append(got, b[:n]...)
+		vfAssert("read/prefix-of-what-was-delivered", len(got) <= len(want) && vfConcreteBool(vfBytesEq(got, want[:len(got)])))
+	}
+	vfReach("read")
+	// five reads of one byte cannot empty ten bytes: only the prefix property is claimed then
+	vfAssert("read/never-more-than-delivered", len(got) <= len(want))
+}
+
+// WriteBuffers hands the core consecutive chunks of at most MSS bytes whose concatenation is the
+// vector written, and reports the total length.
+func vfH_C01_session_write() {
+	conn := vfNewConn()
+	s := vfNewSession(vfU32("conv"), 0, 0, nil, conn, vfServerAddr, nil)
+	s.SetNoDelay(0, 100, 0, 1)
+	s.SetWriteDelay(true) // keep the segments queued so that they can be inspected
+	vfAssert("write/mtu", s.SetMtu(IKCP_OVERHEAD+3))
+	if vfPick("stream", 0, 1) == 1 {
+		s.SetStreamMode(true)
+	}
+	vfSetClock(vfU32("t0"))
+	l1 := []int{0, 1, 3, 4, 7}[vfPick("len1", 0, 4)]
+	l2 := []int{0, 2, 6}[vfPick("len2", 0, 2)]
+	v1, v2 := vfBytes("v1", l1), vfBytes("v2", l2)
+	vfReach("pre")
+	n, err := s.WriteBuffers([][]byte{v1, v2})
+	vfReach("post")
+	vfAssert("write/accepted", err == nil)
+	vfAssert("write/reports-total-length", n == l1+l2)
+	all := append(vfCopy(vfQueueBytes(s.kcp.snd_buf)), vfQueueBytes(s.kcp.snd_queue)...)
+	vfAssert("write/queued-bytes-are-the-vector", len(all) == l1+l2 && vfConcreteBool(vfBytesEq(all, append(vfCopy(v1), v2...))))
+	for i := 0; i < s.kcp.snd_queue.Len(); i++ {
+		vfAssert("write/chunks-within-mss", len(vfRingAt(s.kcp.snd_queue, i).data) <= int(s.kcp.mss))
+	}
+}
